@@ -1,14 +1,16 @@
 /-
 Props/C03_Mp4.lean — C03 "Files stay structurally valid through any edit history", MP4 layouts
 (Model/Container/Mp4Layout.lean; lemmas Proofs/Container/Mp4Props.lean).
-What is proved: the saved layout is read back by the strict walker (every size field equals its extent at every
-level; the path atoms' sizes are those of the new extents) and by mutagen's own reader; the file IS the saved layout
-whenever no offset table has to be patched.  NOT proved here: that the strict walker still accepts the file after the
-table steps of `__update_offsets` ran (they overwrite entry fields of `stco`/`co64`/`tfhd` payloads with the same number
-of bytes — `C02.mp4_table_steps_patch_only` — and Props/C10 (d) says what the entries are afterwards; the tree-level
-statement for them is open).
+What is proved: the FINAL file of a save / delete — region replaced, size fields of the path atoms adjusted, every
+visited `stco` / `co64` / `tfhd` payload patched — is the rendering of a well-formed tree (`savedPatched`) and is read back
+by the strict walker: every size field equals its extent at every level.  Both for files with tags (`__save_existing`,
+`Layout`) and without (`__save_new`, `NewLayout`: a `moov` without `udta`, a `moov.udta` without `meta.ilst`).
+Side condition `TablesOK` (decidable): every visited table atom can be patched — its count fits its payload and every
+patched entry fits its field; otherwise the code raises MP4MetadataError after the region was replaced (C04/C19).  (It
+also says that the table atom the parser saw lies, as a leaf with the same header, at the shifted offset in the saved
+tree: true for every layout, checked rather than proved.)
 -/
-import MutagenModel.Proofs.Container.Mp4Props
+import MutagenModel.Proofs.Container.Mp4New
 set_option linter.unusedVariables false
 namespace Mutagen.C03
 open Mutagen Mutagen.Mp4C
@@ -44,6 +46,44 @@ theorem mp4_save_wellformed_before_tables (mem : Bool) (L : Layout) (h : L.OK) (
     saveTags mem L.render (ilstData items) pad = runSteps (L.tableSteps items pad) (L.saved items pad).render ∧
       walk (L.saved items pad).render = some (L.saved items pad).top :=
   ⟨saveTags_layout mem L h items pad hfit, walk_render _ hfit⟩
+
+/-- MP4 save, the whole of it, without the restriction to saves that patch no table: the file is the rendering of
+`savedPatched`, a well-formed tree of the same extent as the saved layout, which the strict walker reads back -/
+theorem mp4_save_wellformed_final (mem : Bool) (L : Layout) (h : L.OK) (items : List Atom) (pad : PadChoice)
+    (hfit : wfList (L.saved items pad).top) (htab : L.TablesOK items pad) :
+    saveTags mem L.render (ilstData items) pad = (none, renderList (L.savedPatched items pad)) ∧
+      wfList (L.savedPatched items pad) ∧ walk (renderList (L.savedPatched items pad)) = some (L.savedPatched items pad) ∧
+      sizeList (L.savedPatched items pad) = sizeList (L.saved items pad).top :=
+  saveTags_layout_patched mem L h items pad hfit htab
+
+/-- MP4 delete, the same -/
+theorem mp4_delete_wellformed_final (mem : Bool) (L : Layout) (h : L.OK)
+    (hfit : wfList (L.saved [] (.callback fun _ _ => 0)).top) (htab : L.TablesOK [] (.callback fun _ _ => 0)) :
+    deleteTags mem L.render = (none, renderList (L.savedPatched [] (.callback fun _ _ => 0))) ∧
+      walk (renderList (L.savedPatched [] (.callback fun _ _ => 0))) = some (L.savedPatched [] (.callback fun _ _ => 0)) := by
+  rw [deleteTags_eq]
+  have := saveTags_layout_patched mem L h [] _ hfit htab
+  exact ⟨this.1, this.2.2.1⟩
+
+/-- `__save_new`: a file without tags (a `moov` without `udta`: a new `udta(meta(hdlr, ilst, free))` becomes the first
+child of `moov`, the size of `moov` grows; a `moov.udta` without `meta.ilst`: a new `meta(hdlr, ilst, free)` becomes the
+first child of `udta`, the sizes of `moov` and `udta` grow; nothing else moves but the offset tables): the final file is
+the rendering of a well-formed tree the strict walker reads back, longer by the extent of the new atoms -/
+theorem mp4_save_new_wellformed (mem : Bool) (N : NewLayout) (h : N.OK) (items : List Atom) (pad : PadChoice)
+    (hfit : wfList (N.saved items pad)) (htab : N.TablesOK items pad) :
+    saveTags mem N.render (ilstData items) pad = (none, renderList (N.savedPatched items pad)) ∧
+      wfList (N.savedPatched items pad) ∧ walk (renderList (N.savedPatched items pad)) = some (N.savedPatched items pad) ∧
+      sizeList (N.savedPatched items pad) = sizeList N.top + sizeList (N.newAtoms items pad) :=
+  saveTags_new mem N h items pad hfit htab
+
+/-- satisfiable (layouts with a track whose `stco` has to be patched) -/
+example : exLayout.OK ∧ wfList (exLayout.saved exItems .default).top ∧ exLayout.TablesOK exItems .default ∧
+    (exLayout.visitedTables exItems .default).length = 1 ∧
+    exLayout.TablesOK [] (.callback fun _ _ => 0) ∧ wfList (exLayout.saved [] (.callback fun _ _ => 0)).top ∧
+    exNew1.OK ∧ wfList (exNew1.saved exItems .default) ∧ exNew1.TablesOK exItems .default ∧
+    (exNew1.visitedTables exItems .default).length = 1 ∧
+    exNew2.OK ∧ wfList (exNew2.saved exItems .default) ∧ exNew2.TablesOK exItems .default := by
+  decide +kernel
 
 /-- satisfiable; and on the example with a track the strict walker does accept the file after the table step -/
 example : exLayout0.OK ∧ wfList (exLayout0.saved exItems .default).top ∧ exLayout0.tableSteps exItems .default = [] ∧
